@@ -4,7 +4,7 @@
 (* writer and the list the specification's reader gives back (computed by   *)
 (* TLC).  IOEnv.SHARD / IOEnv.NSHARD split the set over parallel TLC runs;  *)
 (* IOEnv.CASESET selects "small" (quick tier) or "full".                    *)
-EXTENDS MC_Thermdat, Json, IOUtils, SequencesExt
+EXTENDS MC_Thermdat, Json, IOUtils, ThermdatSetSeq
 
 Shard == atoi(IOEnv.SHARD)
 NShard == atoi(IOEnv.NSHARD)
@@ -16,8 +16,8 @@ Mine == {L \in Pool : KeyOf(L) % NShard = Shard}
 CaseOf(L) == LET text == WriteFile(L)  r == ReadFile(VLayout, text)
              IN [src |-> L, text |-> text, out |-> r.out, err |-> r.err]
 Cases == {CaseOf(L) : L \in Mine}
-ASSUME JsonSerialize(IOEnv.OUT_FILE, SetToSeq(Cases))
-VARIABLE dummy
-DInit == dummy = 0
-DNext == UNCHANGED dummy
+ASSUME JsonSerialize(IOEnv.OUT_FILE, SetAsSeq(Cases))
+\* dummy behaviour (the case set is written by the ASSUME above)
+DInit == src = <<>> /\ file = <<>> /\ i = 1 /\ rs = RS0 /\ out = <<>> /\ pc = "closed"
+DNext == UNCHANGED vars
 =============================================================================
